@@ -474,6 +474,24 @@ func (fr *Frame) mergeStates(conds []string, sts []*State) *State {
 	return out
 }
 
+// phiNilOrOneLoc: every edge is either the nil constant or the same symbolic address.
+func phiNilOrOneLoc(ts []string, locs []*Loc) bool {
+	for _, l := range locs[1:] {
+		if fmt.Sprint(*l) != fmt.Sprint(*locs[0]) {
+			return false
+		}
+	}
+	n := 0
+	for _, t := range ts {
+		if t == "0" {
+			n++
+		} else if t != "" {
+			return false
+		}
+	}
+	return n+len(locs) == len(ts)
+}
+
 func mergeTerms(conds []string, ts []string) string {
 	t := ts[len(ts)-1]
 	for i := len(ts) - 2; i >= 0; i-- {
@@ -561,6 +579,15 @@ func (fr *Frame) run(entry *State, reach string) error {
 					pv.Bad = "phi of distinct symbolic addresses"
 					g.note("%s: phi %s merges distinct symbolic addresses (havocked)", fr.fn, phi.Name())
 				}
+			} else if len(locs) > 0 && phiNilOrOneLoc(ts, locs) {
+				// nil on some edges, one symbolic address on the others: an address that may be nil
+				var nilConds []string
+				for i, t := range ts {
+					if t == "0" {
+						nilConds = append(nilConds, conds[i])
+					}
+				}
+				pv = Val{Loc: locs[0], Go: phi.Type(), Sort: SInt, NilIf: g.define("phi.nil", SBool, sOr(nilConds...))}
 			} else if len(locs) > 0 {
 				pv = fr.havocVal(phi.Type(), "phi-loc", st)
 				pv.Bad = "phi mixing symbolic addresses and references"
@@ -876,6 +903,7 @@ func (g *Gen) VerifyFunction(fn *ssa.Function, fc *FuncContract) error {
 			return fmt.Errorf("%s:%d: assume: %v", r.File, r.Line, err)
 		}
 		g.assume(t)
+		g.trusted[fmt.Sprintf("assume [%s] in %s: %s", r.Label, shortCallee(fc.Key), r.Src)] = true
 	}
 	o := g.oblige("requires-sat", fr.oname("requires-sat", "entry"), "requires-sat", fc.Props, "true", "true", "preconditions are satisfiable", fn.Pos())
 	o.Expect = "sat"
@@ -1035,8 +1063,9 @@ func (fr *Frame) frameObligations(exit *State, reach string, entryEnv *Env, ghos
 		return nil
 	}
 	for _, k := range sortedKeys(exit.h) {
-		if k == "Alloc" || whole[k] || g.immutableHeap(k) {
-			continue
+		if k == "Alloc" || whole[k] || g.immutableHeap(k) || strings.HasPrefix(k, "Local:") || k == "Elems:interface{}" {
+			// (Elems:interface{}: the argument arrays of variadic logger/format calls — fresh and dead; exempt from framing)
+			continue // (address-taken local variables of the function itself are not part of the caller-visible state)
 		}
 		now := exit.h[k]
 		was := g.heapGet(g.entry, k)
